@@ -1169,6 +1169,14 @@ class ModelSim:
                     failed_here = isinstance(f, CountingFn) and f.fired > fired_map0.get(name, 0)
                     if not failed_here:
                         self.stale.discard(name)
+            if kind == "set_seed":
+                # several assignments (one per seed node) and sweeps inside one call: a node may be
+                # computed by the first sweep and become stale again through the second seed; for
+                # this op the stale model follows liesel's own flags (values are still checked)
+                for sn in self.seed_names:
+                    for name in self.desc.get(sn, ()):
+                        if name in model.nodes and is_caching(model.nodes[name]):
+                            (self.stale.add if model.nodes[name].outdated else self.stale.discard)(name)
             # uncounted caching nodes (_model_* totals etc.) follow liesel's own flag
             for name, node in model.nodes.items():
                 if is_caching(node) and name not in after and name in self.stale and not node.outdated:
